@@ -53,6 +53,7 @@ type Model struct {
 	Auto    bool
 	Single  string // non-empty: the only bucket that exists and can exist
 	NoVer   bool   // server configured WithoutVersioning
+	Hier    bool   // file system backend: a key cannot be stored below another key or where other keys' directory is
 	AllIDs  map[string]bool
 	Uploads []*MUpload
 	HadUp   map[string]bool
@@ -107,6 +108,18 @@ func (mb *MBucket) Live(k string) *MVersion {
 		return nil
 	}
 	return v
+}
+
+// Conflicts reports whether key k cannot coexist with the live keys of a hierarchical
+// (file system) store: some other live key is a path prefix of k ("a" vs "a/q") or k is
+// a path prefix of a live key ("d" vs "d/x").
+func (mb *MBucket) Conflicts(k string) bool {
+	for _, l := range mb.LiveKeys() {
+		if l != k && (strings.HasPrefix(k, l+"/") || strings.HasPrefix(l, k+"/")) {
+			return true
+		}
+	}
+	return false
 }
 
 func (mb *MBucket) LiveKeys() []string {
